@@ -37,7 +37,8 @@ CELLS_OPS = [(op, None) for op in SIMPLE_OPS] + [
     ("rename-emu", b"LISTSCRIPTS"), ("rename-emu", b"GETSCRIPT"), ("rename-emu", b"PUTSCRIPT"),
     ("rename-emu", b"SETACTIVE"), ("rename-emu", b"DELETESCRIPT"),
 ]
-CODES_NO = [None] + [(c, None) for c in wire.RESP_CODES_PLAIN] + [(b"TAG", b"x"), (b"SASL", b"abc="), (b"REFERRAL", b"sieve://h/")]
+CODES_NO = [None] + [(c, None) for c in wire.RESP_CODES_PLAIN] + [(b"TAG", b"x"), (b"SASL", b"abc="), (b"REFERRAL", b"sieve://h/"),
+                                                                    (b"TAG", b"T" * 1024), (b"TAG", b'5\" floppy \\ (x)')]
 CODES_OK = [None, (b"WARNINGS", None), (b"TAG", b"x"), (b"SASL", b"cnNwYXV0aD0x")]
 TEXTS = [None] + TEXT_POOL
 
